@@ -20,6 +20,7 @@ import (
 	"errors"
 	"fmt"
 	"strings"
+	"unicode/utf8"
 
 	"oras.land/oras-go/v2/registry/remote/auth"
 	"oras.land/oras-go/v2/registry/remote/credentials/internal/config"
@@ -76,6 +77,11 @@ func (fs *FileStore) Put(_ context.Context, serverAddress string, cred auth.Cred
 	if err := validateCredentialFormat(cred); err != nil {
 		return err
 	}
+	if !utf8.ValidString(serverAddress) {
+		// The server address becomes a JSON object key; invalid UTF-8 would be
+		// silently replaced and the credential could never be found again.
+		return fmt.Errorf("%w: server address is not valid UTF-8", ErrBadCredentialFormat)
+	}
 
 	return fs.config.PutCredential(serverAddress, cred)
 }
@@ -92,6 +98,11 @@ func validateCredentialFormat(cred auth.Credential) error {
 		// format in the file. The decoded result will be wrong if username
 		// contains colon(s).
 		return fmt.Errorf("%w: colons(:) are not allowed in username", ErrBadCredentialFormat)
+	}
+	if !utf8.ValidString(cred.RefreshToken) || !utf8.ValidString(cred.AccessToken) {
+		// Tokens are stored as JSON strings; invalid UTF-8 would be silently
+		// replaced by U+FFFD and a different token would be read back.
+		return fmt.Errorf("%w: tokens must be valid UTF-8", ErrBadCredentialFormat)
 	}
 	return nil
 }
